@@ -227,7 +227,12 @@ class ExprMixin:
                     if truth == is_and:
                         yield from go(i + 1, s2)
                     else:
-                        yield s2, v
+                        vv = v
+                        if isinstance(node.values[i], ast.Name):
+                            nv = s2.env.get(node.values[i].id)
+                            if nv is not None and nv is not UNBOUND:
+                                vv = nv      # narrowed (e.g. Optional unwrapped on the truthy side)
+                        yield s2, vv
         yield from go(0, st)
 
     def ev_compare(self, node, st):
